@@ -288,6 +288,27 @@ async def e2e(net, hyg, plan):
         D = plan.get("dirname", "dir")
         await w.server.start("127.0.0.1", 2121)
         c = aioftp.Client(path_io_factory=aioftp.MemoryPathIO, **({"encoding": enc} if enc else {}))
+        if plan.get("first_life"):
+            # the same Client object had another session before, with a server that knows LIST only (or refused it before login)
+            srv0 = aioftp.Server([aioftp.User(base_path="/")], path_io_factory=aioftp.MemoryPathIO, **srv_kwargs)
+            if plan["first_life"] == "list_only":
+                del srv0.commands_mapping["mlsd"]
+                del srv0.commands_mapping["mlst"]
+            await srv0.start("127.0.0.1", 2122)
+            await c.connect("127.0.0.1", 2122)
+            try:
+                if plan["first_life"] == "list_only":
+                    await c.login()
+                await c.list("/")
+                await c.stat("/")
+            except (aioftp.StatusCodeError, ValueError):
+                pass
+            try:
+                await c.quit()
+            except Exception:
+                c.close()
+            await srv0.close()
+            mon["client_second_life"] = 1
         await c.connect("127.0.0.1", 2121)
         await c.login()
         if n > 16:
@@ -512,6 +533,9 @@ def gen_cases(tier, seed):
     special = [int(time.mktime((y, mo, d, hh, 0, 0, 0, 0, -1))) for (y, mo, d, hh) in
                [(2024, 1, 1, 0), (2024, 2, 29, 12), (2024, 3, 1, 0), (2025, 1, 2, 3), (2025, 3, 1, 1), (2023, 12, 31, 23), (2026, 7, 2, 0), (2030, 6, 15, 12)]]
     plans = []
+    for i, fl in enumerate(["list_only", "before_login", "list_only", "before_login"]):
+        plans.append({"seed": seed * 7 + 900 + i, "n": [5, 12, 33, 3][i], "fallback": False, "order": ["list-first", "stat-first"][i % 2],
+                      "dirname": "dir", "relative": bool(i % 2), "now": special[i % len(special)], "encoding": None, "first_life": fl})
     for i in range(nd):
         plans.append({"seed": seed * 7 + i, "n": rng.choice([0, 1, 2, 3, 5, 8, 12, 31, 32, 33, 34, 65, 100, 257]),
                       "fallback": [False, "both", "no_mlsd", "no_mlst", False, "both"][i % 6], "order": ["list-first", "stat-first"][(i // 6) % 2],
